@@ -646,7 +646,7 @@ fn main() {
 		lines = read_case_lines(r);
 	} else {
 		lines.extend(corpus_lines("C17"));
-		let n = a.cases.unwrap_or(if a.tier == "thorough" { 40000 } else { 2500 });
+		let n = a.cases.unwrap_or(if a.tier == "thorough" { 250000 } else { 2500 });
 		let mut rng = Rng::new(a.seed);
 		gen_lines(&mut rng, n, &mut lines);
 	}
